@@ -131,10 +131,10 @@ type nodeView struct {
 	ProviderID string
 	HostName   string
 
-	PodRequests, PodLimits, DSRequests, DSLimits, Capacity, Allocatable corev1.ResourceList
-	DisruptionCost                                                      float64
-	Taints                                                              []string
-	Labels, Annotations                                                 map[string]string
+	PodRequests, PodLimits, DSRequests, DSLimits, Capacity, Allocatable     corev1.ResourceList
+	DisruptionCost                                                          float64
+	Taints                                                                  []string
+	Labels, Annotations                                                     map[string]string
 	Marked, MarkField, Deleted, Nominated, Registered, Initialized, Managed bool
 
 	// behavioural probes
@@ -182,9 +182,9 @@ func hostPortsString(hp []scheduling.HostPort) string {
 
 // probe families
 var (
-	probePorts  = []int32{8000, 8001, 8002}
-	probeProtos = []corev1.Protocol{corev1.ProtocolTCP, corev1.ProtocolUDP}
-	probeIPs    = []string{"0.0.0.0", "10.0.0.1", "10.0.0.2", "::"}
+	probePorts   = []int32{8000, 8001, 8002}
+	probeProtos  = []corev1.Protocol{corev1.ProtocolTCP, corev1.ProtocolUDP}
+	probeIPs     = []string{"0.0.0.0", "10.0.0.1", "10.0.0.2", "::"}
 	probeDrivers = []string{"csi.a", "ebs.csi.aws.com", "csi.unlimited"}
 )
 
